@@ -170,7 +170,7 @@ var extractCheck = hx.NewCheck("extraction_exact", oracleExtract)
 func features() sqlgen.Features {
 	f := sqlgen.AllFeatures()
 	f.Merge = hx.Allowed("c15.merge")
-	f.DDLExtras = f.Merge // MERGE with a sub-query source
+	f.DDLExtras = f.Merge                                           // MERGE with a sub-query source
 	f.MySQL, f.NoShowDescribe = hx.Allowed("c15.mysql_forms"), true // REPLACE INTO, ON DUPLICATE KEY UPDATE, MATCH .. AGAINST
 	f.NoMatchAgainst = !hx.Allowed("c15.match_against")
 	f.OrderByAlias = hx.Allowed("c15.order_by_alias")
